@@ -325,6 +325,8 @@ func ruleC10(w *World, r *Report) {
 	ruleC10Blocking(w, r, ctxRoots(w))
 	// R10.10: an association whose reader has gone can no longer end by read time-out (the reader is the only place that notices it)
 	r.withRule("R10.10", func() { ruleC01Reader(w, r) })
+	// R10.11: two associations never draw the same local SEIDs — ending one would delete the other's rules and addresses (C06 R06.7)
+	r.withRule("R10.11", func() { ruleC06SeidEntropy(w, r) })
 	ruleC10Triggers(w, r)
 	ruleC10Forget(w, r)
 	ruleC10Stop(w, r)
